@@ -127,7 +127,7 @@ def battery(tables, cfg, want, argsets):
         for s in str(c.message).split(': ', 1)[-1].split()))
     if st != 'ok':
         o.update({'lexicons': [], 'expanded': [], 'W': [], 'S': [], 'Y': [], 'desc': [], 'A': [], 'ident': [],
-                  'LK': [], 'mlists': [], 'RT': [], 'TX': [],
+                  'LK': [], 'mlists': [], 'RT': [], 'TX': [], 'FQ': [],
                   'TS': [], 'TW': [],
                   'words': [], 'senses': [], 'synsets': []})
         return o
@@ -178,6 +178,9 @@ def battery(tables, cfg, want, argsets):
     listed_s = {tuple(name(x)): x for x in senses}
     o['RT'] = []
     lemmas = sorted({e[3] for e in tables['entries']})[:5]
+    # what a form search finds (as stored, and only through normalisation): FQ rows
+    o['FQ'] = [[q, names(call(w.words, q)), names(call(w.senses, q)), names(call(w.synsets, q))]
+               for lem in lemmas for q in (lem, lem.upper(), lem.capitalize())]
     for lem in lemmas:
         for q in (lem, lem.upper()):
             st_, found = call(w.synsets, q)
